@@ -58,6 +58,9 @@ class _Binary(OpDef):
         for a in shapes(tier):
             out.append({"a": L(a), "form": "ts"})
             out.append({"a": L(a), "form": "st"})
+        # integer tensors combined with a (symbolic) Python scalar: the result is what NumPy/PyTorch give
+        out.append({"a": [3], "form": "ts", "int": [1, -2, 3]})
+        out.append({"a": [3], "form": "st", "int": [2, 4, -1]})
         return out
 
     def illegal_configs(self, tier):
@@ -67,6 +70,8 @@ class _Binary(OpDef):
         f = args["form"]
         if f == "tt":
             return [Inp("a", args["a"], nonzero=self.nz_a), Inp("b", args["b"], nonzero=self.nz_b)]
+        if "int" in args:
+            return [Inp("a", args["a"], differentiable=False, concrete=np.array(args["int"], dtype=np.int64))]
         return [Inp("a", args["a"], nonzero=(self.nz_a if f == "ts" else self.nz_b))]
 
     def extra(self, args, env):
@@ -98,6 +103,8 @@ class _Binary(OpDef):
         for idx in np.ndindex(*osh):
             x = a[bidx(idx, sa, len(osh))] if isinstance(a, np.ndarray) else a
             y = b[bidx(idx, sb, len(osh))] if isinstance(b, np.ndarray) else b
+            x = int(x) if isinstance(x, np.integer) else x
+            y = int(y) if isinstance(y, np.integer) else y
             o[idx] = self.pyop(x, y)
         return o
 
